@@ -342,6 +342,8 @@ class StepMod(_Spec):
         builder.time.register_step_size_modifier(self.modifier)
         self.base = (pd.Timedelta(days=self.spec["step"]) if _is_dt(self.spec) else self.spec["step"])
         self.start = pd.Timestamp(*START) if _is_dt(self.spec) else 0
+        if self.spec["stepmod"].get("living"):
+            self.tracked_view = builder.population.get_view(["tracked"])
 
     def modifier(self, index):
         sm = self.spec["stepmod"]
@@ -351,8 +353,15 @@ class StepMod(_Spec):
             # global step itself changes during the run
             k = int((self.clock() - self.start) / self.base)
             everybody = k % 3 == 1
-        vals = [self.base * sm["mult"] if (everybody or i % sm["every"] == 0) else (pd.NaT if _is_dt(self.spec) else np.nan)
-                for i in index]
+        if sm.get("living"):
+            # every TRACKED simulant asks for the long step, the untracked ones for nothing: once somebody is untracked, the
+            # earliest pending next-event time belongs to untracked simulants only (seeded C18-4: a global step recomputed
+            # from a view that filters them out)
+            tr = self.tracked_view.get(index)["tracked"]
+            vals = [self.base * sm["mult"] if bool(tr.loc[i]) else (pd.NaT if _is_dt(self.spec) else np.nan) for i in index]
+        else:
+            vals = [self.base * sm["mult"] if (everybody or i % sm["every"] == 0) else (pd.NaT if _is_dt(self.spec) else np.nan)
+                    for i in index]
         if _is_dt(self.spec):
             return pd.Series(pd.to_timedelta(vals), index=index)
         return pd.Series(vals, index=index, dtype=float)
@@ -802,6 +811,9 @@ def configuration(spec):
                        "end": {"year": int(end.year), "month": int(end.month), "day": int(end.day)}, "step_size": spec["step"]}
     else:
         cfg["time"] = {"start": 0, "end": spec["step"] * spec["n_steps"], "step_size": spec["step"]}
+        if spec.get("float_clock"):
+            # the same clock with its numbers of the other numeric kind: 0.0, 2.0, 4.0 … are EQUAL to 0, 2, 4 … and print differently
+            cfg["time"] = {k: float(v) for k, v in cfg["time"].items()}
     if spec.get("stepmod"):
         cfg["time"]["standard_step_size"] = spec["step"]
     o = spec.get("obs")
